@@ -62,7 +62,12 @@ class BitsDom:
         else: raise EncodingError(op)
         return s._mk(a.w, r)
 
-    def fma(s, a, b, c): return s._mk(a.w, z3.fpFMA(RNE, a.asfp(), b.asfp(), c.asfp()))
+    def fma(s, a, b, c):
+        # fma(-x, y, z) == fma(x, -y, z): keep at most one negation, on the first (id-sorted) factor
+        nx, x0 = _isneg(a.asfp()); ny, y0 = _isneg(b.asfp())
+        if x0.get_id() > y0.get_id(): x0, y0 = y0, x0
+        if nx != ny: x0 = z3.fpNeg(x0)
+        return s._mk(a.w, z3.fpFMA(RNE, x0, y0, c.asfp()))
     def neg(s, a): return s._mk(a.w, _neg(a.asfp()))
     def abs(s, a): return s._mk(a.w, z3.fpAbs(a.asfp()))
     def sqrt(s, a): return s._mk(a.w, z3.fpSqrt(RNE, a.asfp()))
